@@ -37,7 +37,8 @@ partial def cellFits : Cell → Bool
 
 def specFuel : Nat := 100000
 
-def specAnswer (S : SType) (v : Val) : String :=
+def specAnswer (S : SType) (v0 : Val) : String :=
+  let v := byName senv specFuel S v0     -- struct fields are picked by the schema's field names
   match specCell senv specFuel S v with
   | some c => if cellFits c then "ok " ++ SExp.cellToString c else "err"
   | none => "err"
@@ -59,7 +60,7 @@ def opsTlbSpec : List (String × Handler) := [
           Val.ctor "AddrNone" .nil, Val.ctor "AddrStd" (Val.list [.none, .int w, .bytes a]), .int f]))
         let initV := match iv with
           | .none => Val.none
-          | x => Val.some (Val.ctor "R" x)
+          | x => Val.some (Val.ctor "R" (byName senv specFuel Spec.StateInit x))
         specAnswer Spec.Message (Val.list [info, initV, Val.ctor "R" (.cell bc)])
       | _, _, _, _, _ => "bad-op"
     | _ => "bad-op")
